@@ -29,7 +29,7 @@ import tlc
 PROBE = ("probe_meta", "asan", None, [])
 SPEC_FILES = ["SchemaOps.tla", "SchemaComp.tla", "MC_SchemaComp.tla", "MC_SchemaHash.tla"]
 GEN_FLAGS = ["-O0", "-g0"]      # generated code: uninstrumented and unoptimised (5 CPU-s per schema instead of 20)
-SETUP = {"DeclField", "AddMessage", "AddAdminMessage", "AddComponent"}
+SETUP = {"DeclField", "DeclPair", "AddMessage", "AddAdminMessage", "AddComponent"}
 
 
 # ---------------------------------------------------------------------------------------------------
@@ -155,25 +155,41 @@ def render_xml(S):
 # ---------------------------------------------------------------------------------------------------
 # features of a schema (for choosing a diverse family and for the abstract case)
 def features(leaf):
+    """Construction actions used and structural classes present (what a compiler defect could hinge on)."""
     fs = {h for h in leaf["hist"] if h not in SETUP}
+    comps = {c["name"]: c["items"] for c in leaf["comps"]}
+    types = {f["num"]: f for f in leaf["fields"]}
 
     def walk(items, depth, incomp):
+        nums = [e["n"] for e in items if e["k"] != "c"]
+        if nums != sorted(nums):
+            fs.add("document_order_differs_from_number_order" + ("_in_group" if depth else ""))
         for e in items:
             if e["k"] == "g":
                 fs.add("depth%d" % (depth + 1))
+                fs.add("group_%s" % ("mandatory" if e["r"] else "optional"))
                 if incomp:
                     fs.add("group_in_component")
+                if not e["sub"][0]["r"]:
+                    fs.add("first_member_optional")
                 walk(e["sub"], depth + 1, incomp)
             elif e["k"] == "c":
-                fs.add("component_%s%s" % ("required" if e["r"] else "optional", "_in_group" if depth else ""))
+                where = "_in_group" if depth else ""
+                fs.add("component_%s%s" % ("required" if e["r"] else "optional", where))
+                for ce in comps.get(e["c"], []):
+                    if ce["r"] and not e["r"]:
+                        fs.add("optional_component_with_mandatory_%s%s" % ("group" if ce["k"] == "g" else "field", where))
+            else:
+                fs.add("field_%s%s" % ("mandatory" if e["r"] else "optional", "_in_group" if depth else ""))
+                f = types.get(e["n"])
+                if f and f["vals"]:
+                    fs.add("realm_%s" % f["type"])
     for m in leaf["msgs"]:
         if m["admin"]:
             fs.add("admin_message")
         walk(m["items"], 0, False)
     for c in leaf["comps"]:
         walk(c["items"], 0, True)
-    if any(f["vals"] for f in leaf["fields"]):
-        fs.add("realm")
     used = set()
 
     def nums(items):
@@ -191,37 +207,48 @@ def features(leaf):
     return fs
 
 
-def choose(rng, leaves, n, avoid=(), max_with=None):
-    """n leaves: first a greedy cover of features and feature pairs, then random.  `max_with` = (feature set,
+def choose(rng, leaves, n, max_with=None):
+    """n leaves: a greedy set cover of the features (each round the leaf that adds most uncovered features, then
+    most uncovered feature pairs; ties by seeded order), then seeded random ones.  `max_with` = (feature set,
     limit): at most `limit` chosen leaves may have one of these features."""
     leaves = sorted(leaves, key=lambda l: json.dumps(l, sort_keys=True))
     rng.shuffle(leaves)
+    if len(leaves) > 6000:                       # the cover is computed on a seeded sample of a large family
+        leaves = leaves[:6000]
     feats = [features(l) for l in leaves]
-    covered, picked, limited = set(), [], 0
+    picked, limited = [], 0
+    taken = set()
 
     def allowed(i):
-        return not (max_with and feats[i] & max_with[0] and limited >= max_with[1])
-    for want_pairs in (False, True):
-        for i, fs in enumerate(feats):
-            if len(picked) >= n:
+        return i not in taken and not (max_with and feats[i] & max_with[0] and limited >= max_with[1])
+
+    def take(i):
+        nonlocal limited
+        picked.append(i)
+        taken.add(i)
+        if max_with and feats[i] & max_with[0]:
+            limited += 1
+    for pairs in (False, True):
+        keysets = [({(a,) for a in fs} if not pairs else {(a, b) for a in fs for b in fs if a < b}) for fs in feats]
+        covered = set()
+        for i in picked:
+            covered |= keysets[i]
+        while len(picked) < n:
+            best, gain = None, 0
+            for i, ks in enumerate(keysets):
+                if allowed(i):
+                    g = len(ks - covered)
+                    if g > gain:
+                        best, gain = i, g
+            if best is None:
                 break
-            if i in picked or not allowed(i) or fs & set(avoid):
-                continue
-            keys = {(a,) for a in fs}
-            if want_pairs:
-                keys |= {(a, b) for a in fs for b in fs if a < b}
-            if keys - covered:
-                covered |= keys
-                picked.append(i)
-                if max_with and fs & max_with[0]:
-                    limited += 1
+            covered |= keysets[best]
+            take(best)
     for i in range(len(leaves)):
         if len(picked) >= n:
             break
-        if i not in picked and allowed(i) and not feats[i] & set(avoid):
-            picked.append(i)
-            if max_with and feats[i] & max_with[0]:
-                limited += 1
+        if allowed(i):
+            take(i)
     return [leaves[i] for i in picked]
 
 
@@ -257,6 +284,8 @@ def build_schema(S, workdir):
     """Render, run f8c, compile its output, link with probe_meta.  Never raises for a failure of f8c or of the
     generated code: that is an observation (Compile event), not an infrastructure problem."""
     b = Built(S, schema_id(S))
+    b.times = {}
+    t0 = time.time()
     xdir = os.path.join(workdir, "xml")
     os.makedirs(xdir, exist_ok=True)
     b.xml = os.path.join(xdir, b.prefix + ".xml")
@@ -265,6 +294,7 @@ def build_schema(S, workdir):
     try:
         b.gendir = build.gen_schema(b.xml, b.prefix, b.ns, second_only=False)
         b.f8c_ok = True
+        b.times["f8c"] = round(time.time() - t0, 1)
         with open(os.path.join(b.gendir, ".done")) as fh:
             b.f8c_out = fh.read()
     except build.BuildError as e:
@@ -277,12 +307,14 @@ def build_schema(S, workdir):
         objs = [build.compile_obj(os.path.join(b.gendir, "%s_%s.cpp" % (b.prefix, s)), "plain", ["-I" + b.gendir] + GEN_FLAGS)
                 for s in ("types", "traits", "classes")]
         b.cxx_ok = True
+        b.times["cxx"] = round(time.time() - t0, 1)
     except build.BuildError as e:
         b.log = str(e)[-1500:]
         return b
     try:
         b.binary = build.link("probe_meta_" + b.sid, objs + base_objects(), "asan")
         b.link_ok = True
+        b.times["link"] = round(time.time() - t0, 1)
     except build.BuildError as e:
         b.log = str(e)[-1500:]
     b.objs = objs
@@ -349,11 +381,13 @@ def process(job):
     out = {"b": b, "meta": [], "specs": [], "raw": [], "transient": 0, "t_build": time.time() - t0}
     if b.link_ok:
         out["meta"] = run_meta(b)
+        b.times["meta"] = round(time.time() - t0, 1)
         register(b)
         rng = random.Random(rng_seed)
         out["specs"] = message_specs(rng, b, opts["per_type_random"], opts["n_deep"], opts["max_count"], opts.get("only"))
         out["raw"], out["transient"] = run_messages(b, out["specs"], os.path.join(workdir, "run_" + b.sid))
         shutil.rmtree(os.path.join(workdir, "run_" + b.sid), ignore_errors=True)
+        b.times["messages"] = round(time.time() - t0, 1)
     discard(b, opts["keep_objects"])
     out["t_total"] = time.time() - t0
     return out
@@ -410,7 +444,7 @@ def judge(ctx, prop, leaves_with_kind, skel, opts, name):
             fs = sorted(features(leaf))
             ctx.case(["meta", kind, abstract_schema(b.S), [e["e"] for e in mexecs[xi][1:4]]], nontrivial=b.link_ok)
             summaries.append({"id": b.sid, "kind": kind, "features": fs, "f8c": b.f8c_ok, "cxx": b.cxx_ok, "link": b.link_ok,
-                              "t_build": round(o["t_build"], 1), "t_total": round(o["t_total"], 1), "messages": len(o["specs"]),
+                              "t_cumulative": b.times, "messages": len(o["specs"]),
                               "meta_fails": [f["sig"] for f in by_exec.get(xi, [])]})
             if o["transient"]:
                 ctx.extra["transient_probe_aborts"] = ctx.extra.get("transient_probe_aborts", 0) + o["transient"]
